@@ -6,11 +6,17 @@
     [CCtx]: a program of nested cd / prefix / try blocks around run / sudo calls on a
     real Context -- what [start] received call by call, the two stacks afterwards,
     whether an exception came out. *)
-From InvokeVerif Require Export Model.CtxCmdModel Spec.C15Spec.
+From InvokeVerif Require Export Model.CtxCmdModel Model.ProgramModel Spec.C15Spec Spec.C15CliSpec.
 
 Inductive case :=
 | COpts (c : config) (parent : env) (command : string) (k : kwargs) (obs : outcome)
-| CCtx (cc : ctxcfg) (prog : list stmt) (calls : list call) (final : cstate) (raised : option xkind).
+| CCtx (cc : ctxcfg) (prog : list stmt) (calls : list call) (final : cstate) (raised : option xkind)
+(* a real [Program.run(argv)]: core flags as parsed, lower configuration levels, the
+   INVOKE_RUNTIME_CONFIG variable, and a task body doing [c.run(command, **k)] --
+   observed: [config._overrides], the runtime path chosen, the runner's view *)
+| CCli (a : coreargs) (lower : config) (env_var : option string) (parent : env)
+       (command : string) (k : kwargs)
+       (obs_overrides : tree) (obs_runtime : option string) (obs : outcome).
 
 (** build the option tables from association lists *)
 Definition opt_eqb (a b : opt) : bool :=
@@ -70,10 +76,16 @@ Definition corr (x : case) : bool :=
   | CCtx cc prog calls final raised =>
       let '(st, cs, r) := run_program cc prog in
       list_eqb call_eqb cs calls && cstate_eqb st final && oxkind_eqb r raised
+  | CCli a lower env_var parent command k ot ort obs =>
+      dict_equiv (overrides_of a) ot && dict_equiv ot (overrides_of a)
+      && opt_str_eqb (runtime_path_of a env_var) ort
+      && outcome_eqb (run_model_cli a lower parent command k) obs
   end.
 
 Definition spec (x : case) : bool :=
   match x with
   | COpts c parent command k obs => spec_ok_opts c parent command k obs
   | CCtx cc prog calls final raised => spec_ok_ctx cc prog calls final raised
+  | CCli a lower env_var parent command k ot ort obs =>
+      spec_ok_cli a lower env_var parent command k ot ort obs
   end.
